@@ -22,6 +22,9 @@ func newIdxEngine(p *core.Prog) *core.IdxEngine {
 	e.Iface["SignSyncCommitteeRoots"] = core.IfaceSummary{ResultLike: map[int]int{0: 1}}
 	e.Iface["SignSyncCommitteeSelections"] = core.IfaceSummary{ResultLike: map[int]int{0: 1}, Groups: [][]int{{1, 3}}}
 	e.Iface["SignContributionAndProofs"] = core.IfaceSummary{ResultLike: map[int]int{0: 1}, Groups: [][]int{{1, 2}}}
+	// library multi-signers (go-eth2-wallet-types): results are parallel to the accounts argument
+	e.Iface["AccountProtectingMultiSigner.SignBeaconAttestations"] = core.IfaceSummary{ResultLike: map[int]int{0: 2}, Groups: [][]int{{2, 3}}}
+	e.Iface["AccountProtectingMultiSigner.SignGenericMulti"] = core.IfaceSummary{ResultLike: map[int]int{0: 1}, Groups: [][]int{{1, 2}}}
 	e.Strict["services/attester/standard"] = true
 	e.Strict["services/signer/standard"] = true
 	e.Strict["services/beaconcommitteesubscriber/standard"] = true
